@@ -19,8 +19,11 @@ FUZZY_LO, FUZZY_HI = z3.RealVal(-1), z3.RealVal(1)
 class CmdFam(object):
     """The list of input commands behind a family of arrays."""
 
-    def __init__(self, fid, name, namefun, data=True):
+    def __init__(self, fid, name, namefun, data=True, fuzzy=None):
         self.fid, self.name, self.namefun, self.data = fid, name, namefun, data
+        # what the type check established about the producers: their declared fuzziness (any, where the parameter does not say)
+        self.fuzzy = fuzzy
+        self.fzfun = smt.fresh_fun("isfz_" + str(name), z3.IntSort(), z3.BoolSort())
 
     def elem(self, k):
         o = Obj(ClassV("InputCommand"), {"result_name": Sym("str", self.namefun(k)), "is_finished": True})
@@ -33,6 +36,8 @@ class CmdFam(object):
                     yield st, Ref(("fam", fid, k))
                 else:
                     yield st, Sym("dyn", smt.fresh("anyresult", smt.Val))
+            elif attr == "is_fuzzy":
+                yield st, (bool(self.fuzzy) if self.fuzzy is not None else Sym("bool", self.fzfun(k if not isinstance(k, int) else z3.IntVal(k))))
             else:
                 yield eng.raise_(st, "AttributeError", "InputCommand has no attribute " + attr)
 
@@ -286,10 +291,14 @@ def make_input(eng, st, x, name, p, fuzzy_pre):
             x.single[name] = dict(X=lambda c: Xf(c), M=lambda c: Mf(c), P=lambda c: Pf(c), dt=dt, sh=sh, ref=ref, state=state)
             cmd = Obj(ClassV("InputCommand"), {"result_name": Sym("str", smt.fresh("name_" + name, z3.StringSort())), "is_finished": True})
 
+            fzv = bool(p.is_fuzzy) if p.is_fuzzy is not None else Sym("bool", smt.fresh("isfz_" + name, z3.BoolSort()))
+
             def hook(eng_, st_, r, attr, name=name, ref=ref):
                 if attr == "result":
                     st_.log.append(("touch", name, None))
                     yield st_, ref
+                elif attr == "is_fuzzy":
+                    yield st_, fzv
                 else:
                     yield eng_.raise_(st_, "AttributeError", "InputCommand has no attribute " + attr)
 
@@ -298,10 +307,14 @@ def make_input(eng, st, x, name, p, fuzzy_pre):
         # a result of unknown kind
         cmd = Obj(ClassV("InputCommand"), {"result_name": Sym("str", smt.fresh("name_" + name, z3.StringSort())), "is_finished": True})
 
+        fzv2 = bool(p.is_fuzzy) if p.is_fuzzy is not None else Sym("bool", smt.fresh("isfz_" + name, z3.BoolSort()))
+
         def hook2(eng_, st_, r, attr, name=name):
             if attr == "result":
                 st_.log.append(("touch", name, None))
                 yield st_, Sym("dyn", smt.fresh("anyresult", smt.Val))
+            elif attr == "is_fuzzy":
+                yield st_, fzv2
             else:
                 yield eng_.raise_(st_, "AttributeError", "InputCommand has no attribute " + attr)
 
@@ -335,7 +348,7 @@ def make_input(eng, st, x, name, p, fuzzy_pre):
                                    dt=lambda k: dtf(k), sh=lambda k: shf(k), fuzzy=vt.is_fuzzy)
             else:
                 x.fam[name] = dict(fid=fid, n=n, data=False)
-            st.fams[("cmds", fid)] = CmdFam(fid, name, lambda k: NAME(k), data=data)
+            st.fams[("cmds", fid)] = CmdFam(fid, name, lambda k: NAME(k), data=data, fuzzy=vt.is_fuzzy)
             seq = SeqV(n, lambda k: Ref(("cmdelem", fid, z3.simplify(k) if not isinstance(k, int) else z3.IntVal(k))), tag="cmds")
             return st.alloc(PyList(seq=seq), fresh=False)
         if isinstance(vt, ParamDecl) and vt.cls == "NumberParameter":
@@ -517,9 +530,32 @@ def check_exit(eng, spec, x, st, out, label):
     check_touches(eng, spec, x, st, label)
 
 
+DECLARED_ATTRS = {"is_fuzzy", "inputs", "output", "result_name", "arguments", "is_finished", "_result", "program", "lineno", "argument_lines",
+                  "allow_extra_inputs", "required_inputs", "display_name", "metadata"}
+
+
 def check_frame(eng, x, st, label):
     """C09: every pre-existing array is unchanged at valid cells (payload under missing cells is outside the property)."""
     c = x.c
+    # ... and what the loader and the cleaners decided on stays decided: execute does not rewrite the declared attributes of a command
+    stores = [ev for ev in st.log if ev[0] == "effect" and len(ev) >= 5 and ev[2] in DECLARED_ATTRS]
+    if not stores:
+        eng.results.append({"name": "%s/frame:declared-attributes" % label, "kind": "frame", "status": "unsat", "backend": "event-log",
+                            "time_s": 0, "function": eng.current.key, "clause": "frame"})
+    for ev in stores:
+        nm, v = ev[2], ev[3]
+        goal = None
+        if nm == "is_fuzzy" and ev[4] == x.decl.name:
+            want = bool(x.decl.is_fuzzy)
+            if isinstance(v, bool):
+                goal = z3.BoolVal(v == want)
+            elif isinstance(v, Sym) and v.kind == "bool":
+                goal = v.t == z3.BoolVal(want)
+        if goal is None:
+            eng.results.append({"name": "%s/frame:declared-attributes(.%s)" % (label, nm), "kind": "frame", "status": "unknown", "backend": "event-log", "time_s": 0,
+                                "function": eng.current.key, "clause": "frame", "reason": "execute stores .%s on a %s object: not shown to keep its value" % (nm, ev[4])})
+        else:
+            eng.oblige(st, "%s/frame:declared-attributes(.%s)" % (label, nm), goal, kind="frame", meta={"clause": "frame"})
     for name, d in x.single.items():
         s = st.get(d["ref"])
         s0 = d["state"]
